@@ -272,7 +272,11 @@ class Interp:
                     else:
                         cal = self.cg.callees_of_call(f, n)
                         if cal & self.touches_sp:
-                            st = St(None, st.tags, st.locs)
+                            effs = {net_effect(self, c) for c in cal & self.touches_sp}
+                            if len(effs) == 1 and None not in effs and st.sp is not None:
+                                st = St(st.sp + effs.pop(), st.tags, st.locs)
+                            else:
+                                st = St(None, st.tags, st.locs)
         return st
 
     def set_tag(self, st, idx, m):
@@ -397,6 +401,43 @@ class Interp:
                 continue
             out[N] = r
         return out or None
+
+
+NET_EFFECT = {}
+DUMMY_SPEC = {"word": "<helper>", "fn": "<helper>", "min": 0, "max": 0, "masks": [REAL_TAGS] * 4}
+
+
+def net_effect(ctx, name):
+    """constant change of sp between entry and every returning exit of a helper function, or None"""
+    if name in NET_EFFECT:
+        return NET_EFFECT[name]
+    NET_EFFECT[name] = None          # recursion guard / unknown
+    fs = ctx.cg.funcs.get(name, [])
+    if len(fs) != 1:
+        return None
+    g = fs[0]
+    it = Interp(g, DUMMY_SPEC, ctx.touches_sp, ctx.cg)
+    try:
+        ins = solve(g, {0: St(0)}, it.transfer(False), it.edge, make_join(DUMMY_SPEC))
+    except (RuntimeError, RecursionError):
+        return None
+    tr = it.transfer(False)
+    vals = set()
+    for bid in g.reachable():
+        blk = g.blocks[bid]
+        if g.exit not in [x for x in blk.succ if x is not None] or bid not in ins:
+            continue
+        if blk.nr or any(m.get("k") == "Call" and (m.get("nr") or m.get("fn") in ("error", "error_handler", "fatal", "bad_arg", "bad_argument", "longjmp")) for e in blk.el for m in walk(e, True)):
+            continue
+        out = tr(blk, ins[bid])
+        for idx, sx in enumerate(blk.succ):
+            if sx == g.exit:
+                o2 = it.edge(blk, idx, sx, out)
+                if o2:
+                    vals |= {st.sp for st in o2.values()}
+    if len(vals) == 1 and None not in vals:
+        NET_EFFECT[name] = vals.pop()
+    return NET_EFFECT[name]
 
 
 def make_join(spec):
